@@ -184,7 +184,7 @@ class Interp:
         if self.dptr < len(self.decisions):
             d = self.decisions[self.dptr]
             self.dptr += 1
-            self.pc.append(cond if d else z3.Not(cond))
+            self.add_pc(cond if d else z3.Not(cond))
             return d
         t_ok = self.feasible(cond)
         f_ok = self.feasible(z3.Not(cond))
@@ -192,15 +192,27 @@ class Interp:
             self.decisions.append(True)
             self.new_forks.append(len(self.decisions) - 1)
             self.dptr += 1
-            self.pc.append(cond)
+            self.add_pc(cond)
             return True
         if t_ok:
-            self.pc.append(cond)
+            self.add_pc(cond)
             return True
         if f_ok:
-            self.pc.append(z3.Not(cond))
+            self.add_pc(z3.Not(cond))
             return False
         raise PathEnd()
+
+    def add_pc(self, f):
+        """append a decided condition, flattening conjunctions so that
+        Optional narrowing can find the presence literals"""
+        f = z3.simplify(f)
+        self.pc.append(f)
+        if z3.is_and(f):
+            for c in f.children():
+                self.pc.append(c)
+        elif z3.is_not(f) and z3.is_or(f.arg(0)):
+            for c in f.arg(0).children():
+                self.pc.append(z3.simplify(z3.Not(c)))
 
     # ------------------------------------------------------ fresh by type
     def fresh(self, ty, name):
@@ -241,6 +253,14 @@ class Interp:
                          for i, t in enumerate(p[1]))
         if k == "Obj":
             return self.fresh_obj(p[1], name)
+        if k == "Func":
+            from .nplib import FuncVal
+            f1 = z3.Function(self.namer.fresh(name + ".f1"), usort(p[1]),
+                             z3.RealSort())
+            return FuncVal(f1, name)
+        if k == "Pool":
+            from .nplib import PoolVal
+            return PoolVal()
         if k == "Tbl":
             # 2-D table: rows -> abstract row values of sort p[1]
             seq = self.fresh_seq(f"Sort({p[1]})", name)
@@ -351,7 +371,8 @@ class Interp:
             if z3.is_real(v):
                 return v != 0
             return True
-        if isinstance(v, (Obj, Opaque, Closure)):
+        if isinstance(v, (Obj, Opaque, Closure, self.V.lib.FuncVal,
+                          self.V.lib.PoolVal, PkgFunc, BoundMethod)):
             return True
         raise Unsupported(f"truth value of {v!r}")
 
@@ -435,10 +456,16 @@ class Interp:
         pass
 
     def s_Import(self, st, env):
-        pass
+        for a in st.names:
+            env[a.asname or a.name.split(".")[0]] = ModuleRef(
+                a.name if a.asname else a.name.split(".")[0])
 
     def s_ImportFrom(self, st, env):
-        pass
+        if st.level:
+            raise Unsupported("relative import inside a function")
+        for a in st.names:
+            env[a.asname or a.name] = self.V.lib.resolve_dotted(
+                self, f"{st.module}.{a.name}")
 
     def s_Delete(self, st, env):
         for t in st.targets:
@@ -1120,6 +1147,12 @@ class Interp:
             return callee.fn(self, *args, **kwargs)
         if isinstance(callee, ClassRef):
             return self.V.lib.construct(self, callee, args, kwargs)
+        if isinstance(callee, self.V.lib.FuncVal):
+            return callee.apply(self, args[0])
+        if isinstance(callee, OptVal):
+            self.oblige(f"call_not_None@{self.cur_line}", callee.present,
+                        "safety")
+            return self.call(callee.value, args, kwargs, node)
         raise Unsupported(f"call of {callee!r} at line {self.cur_line}")
 
     def call_closure(self, clo, args, kwargs):
